@@ -43,6 +43,11 @@ CHECKS = {
    text="Vocabulary, count matrix (training and unseen documents) and tf-idf entries of the real vectorisers are compared cell by cell with a naive recount written from the documented semantics, for every corpus over a 2-word alphabet up to 3 documents x 360 settings (more in thorough) and random corpora with hostile text (accents, ligatures, punctuation, empty documents). Exact comparison; tf-idf with a 64*eps floor.",
    note="Trusts the regex crate for regex tokenisers (same expression on both sides) and unicode-normalization. fit_files/transform_files are not driven (need the encoding crate).",
    ref="DESIGN.md §5 C17"),
+ "C08": dict(
+   technique="runtime monitor: brute-force DBSCAN definition oracle (core set, union-find over the core graph, border reachability, contiguous labels) and OPTICS oracle (exactly-once listing, core distance, reachability witness search) over generated point sets x 3 metrics x 3 neighbour indices, cross-index equality, generic and on-radius tolerance classes, small scopes enumerated",
+   text="Every DBSCAN/OPTICS run of the real code is judged against the density-clustering definition recomputed by brute force in the element type, and the three neighbour indices must give equal outputs. Tolerances strictly between inter-point distances are decided strictly; tolerances exactly on an inter-point distance (exact-arithmetic data only) accept either reading but the same one for all indices. All point sequences up to n=7 over 5 positions (1-D) and small 2-D grids are enumerated.",
+   note="Trusts the harness distance formulas; a generic-tolerance case with a pair inside the 4(p+2)eps band is inconclusive. Zero-feature input is an ambiguity class (both 'all noise' and 'one cluster' accepted). OPTICS ordering optimality is outside the property text.",
+   ref="DESIGN.md §5 C08"),
 }
 
 NOT_YET = {}
